@@ -10,7 +10,7 @@ use fuse_backend_rs::api::filesystem::{
     Context, DirEntry, Entry, FileLock, FileSystem, GetxattrReply, IoctlData,
     ListxattrReply, ZeroCopyReader, ZeroCopyWriter,
 };
-use fuse_backend_rs::api::server::Server;
+use fuse_backend_rs::api::server::{MetricsHook, Server};
 use fuse_backend_rs::transport::{FsCacheReqHandler, FuseBuf, FuseChannel, FuseDevWriter, FuseSession, Reader, VirtioFsWriter, Writer};
 use std::ffi::CStr;
 use std::io::{self, BufRead, Read, Write};
@@ -546,10 +546,20 @@ struct Case {
     rsegs: Vec<usize>,
     wsegs: Vec<usize>,
     notify: Option<String>,
+    hook: bool,
 }
 
+// A metrics hook that only counts: with it installed the server must behave exactly as without it.
+struct CountHook { n: std::sync::atomic::AtomicUsize }
+impl MetricsHook for CountHook {
+    fn collect(&self, ih: &fuse_backend_rs::abi::fuse_abi::InHeader) { self.n.fetch_add(1 + (ih.len as usize & 1), std::sync::atomic::Ordering::SeqCst); }
+    fn release(&self, _oh: Option<&fuse_backend_rs::abi::fuse_abi::OutHeader>) { self.n.fetch_add(1, std::sync::atomic::Ordering::SeqCst); }
+}
+static HOOK: CountHook = CountHook { n: std::sync::atomic::AtomicUsize::new(0) };
+fn hook_of(c: &Case) -> Option<&'static dyn MetricsHook> { if c.hook { Some(&HOOK) } else { None } }
+
 fn parse_case(line: &str) -> Case {
-    let mut c = Case { id: String::new(), transport: "fusedev".into(), cap: 0, req: vec![], fs: FsRes::Unit, remap: Some((0, 0)), prior_minor: None, vu: false, rsegs: vec![], wsegs: vec![], notify: None };
+    let mut c = Case { id: String::new(), transport: "fusedev".into(), cap: 0, req: vec![], fs: FsRes::Unit, remap: Some((0, 0)), prior_minor: None, vu: false, rsegs: vec![], wsegs: vec![], notify: None, hook: false };
     for tok in line.split_whitespace() {
         let (k, v) = tok.split_once('=').unwrap();
         match k {
@@ -564,6 +574,7 @@ fn parse_case(line: &str) -> Case {
             "rsegs" => c.rsegs = nums(v).iter().map(|x| *x as usize).collect(),
             "wsegs" => c.wsegs = nums(v).iter().map(|x| *x as usize).collect(),
             "notify" => c.notify = Some(v.to_string()),
+            "hook" => c.hook = v == "1",
             _ => panic!("bad key {}", k),
         }
     }
@@ -587,7 +598,7 @@ fn run_fusedev(c: &Case, asyncmode: bool) -> String {
             let writer: FuseDevWriter<'_, ()> = FuseDevWriter::new(a, wslice).unwrap();
             let mut nc = NoCache;
             let vu: Option<&mut dyn FsCacheReqHandler> = if c.vu { Some(&mut nc) } else { None };
-            server.handle_message(reader, Writer::FuseDev(writer), vu, None)
+            server.handle_message(reader, Writer::FuseDev(writer), vu, hook_of(c))
         }));
         match r {
             Ok(v) => { res = res_str(&v); panicked = false; }
@@ -660,7 +671,7 @@ fn run_virtio(c: &Case) -> String {
         let writer = VirtioFsWriter::new(&mem, chain).unwrap();
         let mut nc = NoCache;
         let vu: Option<&mut dyn FsCacheReqHandler> = if c.vu { Some(&mut nc) } else { None };
-        server.handle_message(reader, Writer::VirtioFs(writer), vu, None)
+        server.handle_message(reader, Writer::VirtioFs(writer), vu, hook_of(c))
     }));
     let (res, panicked) = match r { Ok(v) => (res_str(&v), false), Err(_) => ("panic".to_string(), true) };
     let after: Vec<u8> = { let mut v = vec![0u8; memsz - 0x100000]; mem.read_slice(&mut v, GuestAddress(0x100000)).unwrap(); v };
@@ -715,7 +726,7 @@ fn run_chan(c: &Case) -> String {
         let (reader, writer) = cn.ch.get_request().unwrap().unwrap();
         let mut nc = NoCache;
         let vu: Option<&mut dyn FsCacheReqHandler> = if c.vu { Some(&mut nc) } else { None };
-        server.handle_message(reader, Writer::FuseDev(writer), vu, None)
+        server.handle_message(reader, Writer::FuseDev(writer), vu, hook_of(c))
     }));
     let (res, panicked) = match r { Ok(v) => (res_str(&v), false), Err(_) => ("panic".to_string(), true) };
     let packets = drain(cn.peer);
